@@ -2,7 +2,7 @@
    This file contains only the property theorems, each closed by `exact`, with
    Print Assumptions beneath.  The model is Model/Cache.v, the history
    specification Spec/CacheSpec.v, the proofs Proofs/CacheProofs.v. *)
-From VF Require Import Base.Prelude Model.Cache Spec.CacheSpec Proofs.CacheProofs.
+From VF Require Import Base.Prelude Model.Cache Spec.CacheSpec Proofs.CacheProofs Proofs.CacheWrapper.
 Open Scope Z_scope.
 
 (* Full statement over histories: for every capacity and every finite history of
@@ -82,4 +82,49 @@ Example C12_nonvacuous :
   monotone h = true
   /\ snd (run (empty 2) h) = [None; None; Some 10; None; None; None; None; None; None; None; Some 41]
   /\ check_history 2 h (snd (run (empty 2) h)) = true.
+Proof. vm_compute. repeat split. Qed.
+
+(* The token cache.  The Go code reaches the cache through a thin wrapper,
+   TokenCache (helpers.go): every operation of the wrapper is the cache's own
+   operation on the key "t-" ++ token.  token |-> "t-" ++ token is an injective
+   renaming of the caller's keys, so TokenCache is "the cache behind an
+   injective renaming".  Proofs/CacheWrapper.v shows by a step-by-step
+   simulation (the wrapped cache goes through exactly the renamed states,
+   because every decision the model takes about keys is an equality test, and
+   an injective function preserves and reflects equality) that such a cache
+   produces, on the caller's history, exactly the outputs of a plain cache on
+   that history.  Hence every C12 statement holds of TokenCache with the
+   caller's keys; this is what justifies the correspondence check judging the
+   wrapper's observed histories, after stripping the prefix, with the same
+   model and the same monitor.  rename_hist f h is the history the inner cache
+   sees when the caller issues h. *)
+Theorem C12_wrapper_outputs : forall (f : key -> key),
+  (forall a b, f a = f b -> a = b) ->
+  forall (capacity : nat) (h : list (time * op)),
+  snd (run (empty capacity) (rename_hist f h)) = snd (run (empty capacity) h).
+Proof. exact wrapper_outputs. Qed.
+Print Assumptions C12_wrapper_outputs.
+
+(* C12_history for the wrapped cache: the outputs of the inner cache on the
+   renamed history, judged against the caller's history h. *)
+Theorem C12_wrapper_history : forall (f : key -> key),
+  (forall a b, f a = f b -> a = b) ->
+  forall (capacity : nat) (h : list (time * op)),
+  monotone h = true ->
+  check_history capacity h (snd (run (empty capacity) (rename_hist f h))) = true.
+Proof. exact wrapper_history. Qed.
+Print Assumptions C12_wrapper_history.
+
+(* Non-vacuity: a renaming whose image overlaps the caller's keys (1 |-> 3,
+   3 |-> 7), on a history with a hit, an eviction (capacity 1), a miss and a
+   cleanup; both sides are equal and contain a Some. *)
+Example C12_wrapper_nonvacuous :
+  let f := fun k : key => (2 * k + 1)%N in
+  let h := [(1, OSet 1%N 10 100); (2, OGet 1%N); (3, OSet 3%N 30 100); (4, OGet 1%N);
+            (5, OCleanup); (6, OGet 3%N)] in
+  rename_hist f h = [(1, OSet 3%N 10 100); (2, OGet 3%N); (3, OSet 7%N 30 100); (4, OGet 3%N);
+                     (5, OCleanup); (6, OGet 7%N)]
+  /\ snd (run (empty 1) (rename_hist f h)) = [None; Some 10; None; None; None; Some 30]
+  /\ snd (run (empty 1) h) = [None; Some 10; None; None; None; Some 30]
+  /\ check_history 1 h (snd (run (empty 1) (rename_hist f h))) = true.
 Proof. vm_compute. repeat split. Qed.
